@@ -134,3 +134,46 @@ def check_plan(plan, demands, sizes=None, width=None, column_set=None):
         if prod[i] < demands[i]:
             bad.append(f"demand {i}: produced {prod[i]} < {demands[i]}")
     return bad
+
+
+# ------------------------------------------------------------------ certifying oracle for planted perfect packings
+def volume_bound(sizes, width, demands):
+    """ceil(total demanded length / width): no plan can use fewer rolls, because pieces are cut whole from rolls of
+    length `width` and a plan must produce at least the demanded number of every piece.  Integers only."""
+    total = sum(int(s) * int(d) for s, d in zip(sizes, demands))
+    return -(-total // int(width))
+
+
+def plan_from_rolls(sizes, rolls):
+    """rolls: list of (list of piece sizes cut from one roll, multiplicity).  Returns the plan {pattern: count} over
+    the piece types `sizes` (every size occurring in a roll must occur exactly once in `sizes`)."""
+    index = {}
+    for i, s in enumerate(sizes):
+        if s in index:
+            raise ValueError(f"size {s} occurs twice: planted rolls need distinct type sizes")
+        index[s] = i
+    plan = {}
+    for pieces, mult in rolls:
+        pat = [0] * len(sizes)
+        for s in pieces:
+            pat[index[s]] += 1
+        pat = tuple(pat)
+        plan[pat] = plan.get(pat, 0) + int(mult)
+    return plan
+
+
+def planted_optimum(sizes, width, demands, plan):
+    """Optimum known by construction.  `plan` ({pattern: count}) is a candidate optimal plan; it is accepted only if
+      (1) it is a valid plan for the instance (check_plan: patterns fit, every demand met) and
+      (2) its number of rolls equals the volume bound ceil(sum size_i*demand_i / width).
+    Then (1) gives OPT <= k and (2) gives OPT >= k.  Returns (k, plan); raises ValueError when the certificate does
+    not hold (a generator bug, never a verdict about the code under test)."""
+    plan = {tuple(p): int(c) for p, c in plan.items()}
+    bad = check_plan(plan, list(demands), list(sizes), width)
+    if bad:
+        raise ValueError(f"planted plan is not valid: {bad[:3]}")
+    k = sum(plan.values())
+    lb = volume_bound(sizes, width, demands)
+    if k != lb:
+        raise ValueError(f"planted plan uses {k} rolls but the volume bound is {lb}: no certificate")
+    return k, plan
